@@ -1,4 +1,5 @@
 """C01 - validation accepts exactly the lines that conform to the scheme."""
+import os
 import re
 
 from .. import colcases, common, impl
@@ -589,6 +590,123 @@ def eval_aliasing(ann, line, other_line):
     return touched, fails
 
 
+def eval_nonutf8(ann, line, k, stray, gz, mode):
+    """A file (plain or .gz) whose data line has a byte that is no UTF-8 inside field k: it is not the text of a
+    conforming line.  Reading it through reader_from may fail (the file is not text) or report the line; it must not hand
+    out, without any error, a record in which that field is bound to a value - the value some OTHER text denotes."""
+    import gzip
+    import tempfile
+    from maflib.reader import MafReader
+    sch = impl.scheme_by_annotation(ann)
+    names = sch.column_names()
+    fields = [f.encode("utf-8") for f in line.split("\t")]
+    f = fields[k]
+    fields[k] = f[:len(f) // 2] + stray + f[len(f) // 2:]
+    data = ("#version %s\n#annotation.spec %s\n" % (sch.version(), ann)).encode() + "\t".join(names).encode() + b"\n" + b"\t".join(fields) + b"\n"
+    where = {"kind": "non-utf8", "scheme": ann, "line": line, "field": k, "column": names[k], "stray": stray.hex(), "gz": gz, "mode": mode}
+    with tempfile.TemporaryDirectory() as tmp, impl.LogCapture():
+        path = os.path.join(tmp, "f.maf" + (".gz" if gz else ""))
+        with (gzip.open(path, "wb") if gz else open(path, "wb")) as h:
+            h.write(data)
+        try:
+            rd = MafReader.reader_from(path, validation_stringency=impl.MODES[mode])
+            recs = list(rd)
+            errs = list(rd.validation_errors)
+            rd.close()
+        except Exception:  # noqa
+            return []
+    if len(recs) == 1 and not errs and not recs[0].validation_errors:
+        try:
+            c = recs[0][names[k]]
+        except Exception:  # noqa
+            c = None
+        if c is not None:
+            return [dict(where, what="a %s file whose field %d (%s) holds the byte %s, which is no UTF-8, is read without any error and the field is bound to %r" % (
+                ".gz" if gz else "plain", k, names[k], stray.hex(), c.value))]
+    return []
+
+
+def nonutf8_cases(ctx, out):
+    rng = ctx.rng("non-utf8")
+    anns = impl.builtin_annotations()
+    for _ in range(ctx.scale(12, 100)):
+        ann = rng.choice(anns)
+        fields = colcases.valid_fields(ann, rng, prefer_nonnull=0.9)
+        cands = [i for i, f in enumerate(fields) if f]
+        if not cands:
+            continue
+        out.evaluations += 1
+        out.failures += eval_nonutf8(ann, "\t".join(fields), rng.choice(cands), rng.choice([b"\xff", b"\xfe", b"\xe9", b"\xc3"]), rng.random() < 0.5, rng.choice(["Silent", "Lenient", "Strict"]))
+        out.distribution["file with a byte that is no UTF-8 inside a field"] += 1
+        out.nontrivial.add(("non-utf8", ann, tuple(fields)))
+
+
+def eval_threads(ann, rounds=150):
+    """Several threads parse lines at once, each with a scheme instance of its own (a thread pool converting several
+    files): every line gets the verdict it gets alone - two threads on conforming lines with long list fields, two on
+    lines whose list field has an empty item."""
+    import sys
+    import threading
+    import maflib.column_types as CT
+    from maflib.record import MafRecord
+    from maflib.validation import ValidationStringency as VS
+    sch = impl.scheme_by_annotation(ann)
+    names = sch.column_names()
+    ks = [i for i, n in enumerate(names) if issubclass(sch.column_class(n), CT.SequenceOfStrings)]
+    if not ks:
+        return []
+    import random
+    k = ks[0]
+    base = colcases.valid_fields(ann, random.Random(5), prefer_nonnull=0.3)
+    good = list(base)
+    good[k] = ";".join(["v%d" % i for i in range(300)])
+    bad = list(base)
+    bad[k] = ";".join(["v%d" % i for i in range(150)] + [""] + ["w%d" % i for i in range(149)])
+    lines = ["\t".join(good), "\t".join(bad)]
+
+    def verdict(line, scheme):
+        r = MafRecord.from_line(line, scheme=scheme, validation_stringency=VS.Silent)
+        try:
+            bound = r[names[k]] is not None
+        except KeyError:
+            bound = False
+        return (len(r.validation_errors), bound)
+    alone = [verdict(l, type(sch)()) for l in lines]
+    where = {"kind": "threads", "scheme": ann, "column": names[k], "alone": alone}
+    odd = []
+
+    def work(which):
+        scheme = type(sch)()
+        for _ in range(rounds):
+            v = verdict(lines[which], scheme)
+            if v != alone[which]:
+                odd.append((which, v))
+                return
+    saved = sys.getswitchinterval()
+    sys.setswitchinterval(1e-6)
+    try:
+        ts = [threading.Thread(target=work, args=(w,)) for w in (0, 1, 0, 1)]
+        for t in ts:
+            t.start()
+        for t in ts:
+            t.join()
+    finally:
+        sys.setswitchinterval(saved)
+    if odd:
+        which, v = odd[0]
+        return [dict(where, what="parsed by four threads at once (a scheme instance each), the %s line got the verdict (errors, list column bound) = %s; alone it gets %s" % (
+            "conforming" if which == 0 else "non-conforming", v, alone[which]))]
+    return []
+
+
+def thread_cases(ctx, out):
+    for ann in (["gdc-1.0.0"] if ctx.tier == "quick" else ["gdc-1.0.0", "gdc-1.0.0-protected", "gdc-2.0.0-aliquot"]):
+        out.evaluations += 1
+        out.failures += eval_threads(ann)
+        out.distribution["four threads parsing at once"] += 1
+        out.nontrivial.add(("threads", ann))
+
+
 def aliasing_cases(ctx, out):
     rng = ctx.rng("aliasing")
     anns = impl.builtin_annotations()
@@ -616,6 +734,8 @@ def run(ctx):
     line_cases(ctx, out, per_scheme=ctx.scale(12, 150))
     file_cases(ctx, out, per_scheme=ctx.scale(1, 6), n_lines=ctx.scale(4, 6))
     aliasing_cases(ctx, out)
+    nonutf8_cases(ctx, out)
+    thread_cases(ctx, out)
     return out
 
 
@@ -660,6 +780,19 @@ def replay_case(ctx, failure):
     """Re-evaluate the stored failing input on the current implementation; the failures it produces now
     ([] = the property holds on it; None = the stored failure lacks the inputs: regenerate from the seed)."""
     f = failure
+    if f.get("kind") == "threads" and "scheme" in f:
+        fails = eval_threads(f["scheme"])
+        print("replay C01: four threads (switch interval 1e-6 s) parse a conforming and a non-conforming %s line 150 times each, each thread with its own scheme instance" % f["scheme"])
+        for x in fails:
+            print("  oracle: %s" % x["what"])
+        return fails
+    if f.get("kind") == "non-utf8" and all(k in f for k in ("scheme", "line", "field", "stray", "gz", "mode")):
+        fails = eval_nonutf8(f["scheme"], f["line"], int(f["field"]), bytes.fromhex(f["stray"]), bool(f["gz"]), f["mode"])
+        print("replay C01: a %s file under %s whose data line has the byte %s in the middle of field %d (%s), read by MafReader.reader_from in %s mode" % (
+            ".gz" if f["gz"] else "plain", f["scheme"], f["stray"], int(f["field"]), f.get("column"), f["mode"]))
+        for x in fails:
+            print("  oracle: %s" % x["what"])
+        return fails
     if f.get("kind") == "aliasing" and all(k in f for k in ("scheme", "line", "other_line")):
         touched, fails = eval_aliasing(f["scheme"], f["line"], f["other_line"])
         print("replay C01: MafRecord.from_line under %s; the list values of columns %s of the parsed record changed in place (append); the same line and a later line parsed again" % (f["scheme"], touched))
